@@ -416,6 +416,14 @@ def split_case(rng, workdir, k):
     for v, f in enumerate(fmap, 1):
         rawname[v] = forms[seen_f.get(f, 0)] % f
         seen_f[f] = seen_f.get(f, 0) + 1
+    # tag values that get_valid_filename reduces to the EMPTY string ('##', '+', '(!)', the empty Z tag) all belong to the
+    # file '<prefix>.bam'; their records must not disappear.  File id of that file: nvals + 1.
+    empty_forms = ['##', '+', '(!)', '']
+    empty_file = nvals + 1
+    if rng.random() < 0.35:
+        for k, v in enumerate(rng.sample(range(1, nvals + 1), min(nvals, rng.choice([1, 1, 2])))):
+            fmap[v - 1] = empty_file
+            rawname[v] = empty_forms[(k + n) % len(empty_forms)] if k == 0 else empty_forms[(k + n + 1) % len(empty_forms)]
     int_tags = rng.random() < 0.25
     if int_tags:
         # integer tag values as written by the taggers (e.g. a cell index), starting at 0; no collisions: file <v-1>.bam
@@ -429,6 +437,8 @@ def split_case(rng, workdir, k):
         reads.append(bamgen.make_read(header, 'r%d' % (i + 1), 'chrA', 10 * (len(vals) + 30 - i) if unsorted_input else 10 * i, 'ACGT',
                                       tags={'SM': rawname[v]} if v else {'XX': 1}))
     def out_name(f):
+        if not int_tags and f == empty_file:
+            return '.bam'
         return '%d.bam' % (f - 1) if int_tags else 'cell_%d.bam' % f
     inp = os.path.join(workdir, 'in.bam')
     bamgen.write_bam(inp, header, reads, sort=False, index=False)
@@ -499,7 +509,9 @@ def split_case(rng, workdir, k):
             except Exception:
                 ok = False
             v = fn[:-4]
-            if int_tags:
+            if v == '' and not int_tags:
+                fid = empty_file
+            elif int_tags:
                 fid = int(v) + 1 if v.isdigit() else -1
             else:
                 fid = int(v[5:]) if v.startswith('cell_') and v[5:].isdigit() else -1
